@@ -81,6 +81,14 @@ func VHarnessC10BuildList() {
 
 var vAliasLow int
 
+// VHarnessC10InnerAlias: the same exploration over universes in which a non-root project may require
+// the same path twice, under two names and at two versions (every project may name a requirement as
+// it likes): both edges are demands, the higher one wins and what only it reaches is in the list.
+func VHarnessC10InnerAlias() {
+	vInnerAlias = vParam("inner_alias")
+	VHarnessC10BuildList()
+}
+
 func vExpectedFrom(i, k int) []int {
 	root := make([]int, vNProj)
 	root[i] = k + 1
